@@ -146,7 +146,9 @@ class SnepServer(threading.Thread):
                 log.debug("bad request (0x{:02x})".format(request_data[1]))
                 response_code = 0xC2  # nfc.snep.BadRequest
                 response_data = b''
-        except ndef.DecodeError as error:
+        except (ndef.DecodeError, ValueError) as error:
+            # ndeflib raises ValueError (UnicodeDecodeError) and not
+            # DecodeError when the TYPE field of a record is malformed
             log.error(repr(error))
             response_code = 0xC2  # nfc.snep.BadRequest
             response_data = b''
